@@ -12,6 +12,7 @@ use crate::par::{catch, panic_site, par_for};
 use crate::pipeline::AnySrc;
 use crate::tilesets;
 use serde_json::{json, Value};
+use std::collections::BTreeMap;
 use std::sync::Arc;
 
 
@@ -308,6 +309,42 @@ pub fn run(ctx: Arc<Ctx>) {
 				let w = Written::Path(root);
 				check_opened(ctxr, &rt, Cont::Directory, &format!("directory extra_files={extra} over {name}"), &w, &tiles, true, json!({"cont": "directory", "extra": extra, "set": name}));
 				ct::cleanup(&w);
+			}
+			// the same tree with path components that are symbolic links (a tile tree is addressed by path): tiles with a
+			// payload that occurred before are links to the first file holding it, and the highest zoom level lives in
+			// a directory next to the root and is linked into it
+			{
+				let root = wpath.join(format!("l{i}.dir"));
+				let store = wpath.join(format!("l{i}.store"));
+				let _ = std::fs::remove_dir_all(&root);
+				let _ = std::fs::remove_dir_all(&store);
+				let top = tiles.keys().map(|k| k.0).max().unwrap_or(0);
+				let two_levels = tiles.keys().any(|k| k.0 != top);
+				let mut first_with: BTreeMap<&[u8], std::path::PathBuf> = BTreeMap::new();
+				let mut ok = true;
+				for (k, v) in tiles.iter() {
+					let base = if two_levels && k.0 == top { store.join(k.0.to_string()) } else { root.join(k.0.to_string()) };
+					let dir = base.join(k.1.to_string());
+					ok &= std::fs::create_dir_all(&dir).is_ok();
+					let file = dir.join(format!("{}.png", k.2));
+					match first_with.get(v.as_slice()) {
+						Some(target) if !v.is_empty() => ok &= std::os::unix::fs::symlink(target, &file).is_ok(),
+						_ => {
+							ok &= std::fs::write(&file, v).is_ok();
+							first_with.insert(v.as_slice(), file.clone());
+						}
+					}
+				}
+				ok &= std::fs::create_dir_all(&root).is_ok() && std::fs::write(root.join("tiles.json"), META).is_ok();
+				if two_levels {
+					ok &= std::os::unix::fs::symlink(store.join(top.to_string()), root.join(top.to_string())).is_ok();
+				}
+				if ok {
+					let w = Written::Path(root);
+					check_opened(ctxr, &rt, Cont::Directory, &format!("directory with symbolic links over {name}"), &w, &tiles, true, json!({"cont": "directory", "links": true, "set": name}));
+					ct::cleanup(&w);
+				}
+				let _ = std::fs::remove_dir_all(&store);
 			}
 		}
 	});
